@@ -29,6 +29,8 @@ type DkgCall struct {
 	TickMs       int      `json:"tick_ms"`
 	// for "contribute": whose valid contribution to send ("" = a self-made valid one for the receiving instance)
 	N uint32 `json:"n"`
+	// for "prepare": identifier -> "name:port" written into the participant list instead of the configured endpoint
+	Bind map[string]string `json:"bind"`
 }
 
 // DkgScenario is one key-generation run on a fresh cluster.
@@ -160,6 +162,13 @@ func RunDkgScenario(ctx context.Context, sc *DkgScenario, log *Log) error {
 		parts := make([]*pb.Endpoint, len(call.Participants))
 		for j, id := range call.Participants {
 			parts[j] = &pb.Endpoint{Id: id, Name: peerName(id), Port: uint32(10000 + id%50000)}
+			if b, ok := call.Bind[fmt.Sprint(id)]; ok {
+				// the request binds this identifier to another name:port than the receiver's configuration does
+				host, port, _ := strings.Cut(b, ":")
+				var pn uint64
+				fmt.Sscan(port, &pn)
+				parts[j] = &pb.Endpoint{Id: id, Name: host, Port: uint32(pn)}
+			}
 		}
 		before := c.sessionProbeSnapshot(ctx, in, call.Account)
 		var cerr error
